@@ -11,12 +11,19 @@
 (***************************************************************************)
 EXTENDS Terms
 
+(* value stored under a constant key of a dict literal (absent if the key is not defined once) *)
+DictValue(d, key) ==
+    LET n == Len(d.a) \div 2
+        hits == {i \in 1..n : d.a[2 * i - 1] = key}
+    IN IF Cardinality(hits) = 1 /\ \A i \in 1..n : d.a[2 * i - 1].k = "str"
+       THEN d.a[2 * (CHOOSE i \in hits : TRUE)] ELSE Absent
 (* the type the all-Any follower gives is int / float / Any *)
 RECURSIVE Numish(_)
 Numish(e) ==
     CASE e.k \in {"int", "float", "name"} -> TRUE
-      [] e.k = "attr"  -> e.a[1].k # "dict"
-      [] e.k = "sub"   -> e.a[1].k \notin {"tuple", "dict"}
+      [] e.k = "attr"  -> IF e.a[1].k = "dict" THEN Numish(DictValue(e.a[1], StrC(e.s))) ELSE TRUE
+      [] e.k = "sub"   -> IF e.a[1].k = "dict" THEN e.a[2].k = "str" /\ Numish(DictValue(e.a[1], e.a[2]))
+                          ELSE e.a[1].k # "tuple"
       [] e.k = "call"  -> TRUE
       [] e.k = "binop" -> TRUE
       [] e.k = "unop"  -> e.s # "not" /\ Numish(e.a[1])
@@ -107,7 +114,10 @@ StrT   == Ty0("str")
 Iter(x) == Ty("Iterable", <<x>>)
 RecT(fields, tys) == T("rec", "", 0, fields, tys)
 Mth(nm, ret) == [name |-> nm, ret |-> ret]
-Cls(nm, params, base, methods) == [name |-> nm, params |-> params, base |-> base, methods |-> methods]
+Cls(nm, params, base, methods) == [name |-> nm, params |-> params, base |-> base, methods |-> methods,
+                                   fields |-> <<>>]
+(* a dataclass: typed fields read as attributes (rendered with string annotations), plus methods *)
+DCls(nm, fields, methods) == [name |-> nm, params |-> <<>>, base |-> NoAnn, methods |-> methods, fields |-> fields]
 
 Universe == <<
     Cls("Trk", <<>>, NoAnn, <<Mth("pt", FloatT), Mth("q", IntT)>>),
@@ -118,7 +128,9 @@ Universe == <<
     Cls("Re", <<"U">>, Ty("Box", <<Iter(TVar("U"))>>), <<Mth("one", TVar("U"))>>),
     Cls("MyIter", <<"T">>, Iter(TVar("T")), <<Mth("Last", TVar("T"))>>),
     Cls("JetIter", <<>>, Ty("MyIter", <<Ty0("Jet")>>), <<>>),
-    Cls("Evt", <<>>, NoAnn, <<Mth("met", FloatT), Mth("nj", IntT), Mth("flag", BoolT),
+    DCls("Part", <<Mth("pt", FloatT), Mth("idx", IntT), Mth("parent", Ty0("Part")),
+                   Mth("kids", Iter(Ty0("Part")))>>, <<Mth("good", BoolT)>>),
+    Cls("Evt", <<>>, NoAnn, <<Mth("met", FloatT), Mth("nj", IntT), Mth("flag", BoolT), Mth("part", Ty0("Part")),
                               Mth("jets", Iter(Ty0("Jet"))), Mth("trks", Iter(Ty0("Trk"))),
                               Mth("box", Ty("Box", <<Ty0("Jet")>>)), Mth("jb", Ty0("JetBox")),
                               Mth("re", Ty("Re", <<Ty0("Trk")>>)), Mth("jetiter", Ty0("JetIter")),
@@ -160,6 +172,14 @@ LookupMethod(ty, m) ==
             THEN LET r == c.methods[CHOOSE i \in 1..Len(c.methods) : c.methods[i].name = m].ret IN
                  <<TRUE, IF r.k = "noann" THEN AnyT ELSE TySubst(r, c.params, args)>>
             ELSE IF c.base.k = "noann" THEN <<FALSE, AnyT>> ELSE LookupMethod(BaseOf(ty), m)
+
+(* declared type of data-class field f of an instance of type ty *)
+LookupField(ty, f) ==
+    IF ty.k # "ty" \/ ty.s \notin ClassNames THEN <<FALSE, AnyT>>
+    ELSE LET c == ClassOf(ty.s) IN
+         IF \E i \in 1..Len(c.fields) : c.fields[i].name = f
+         THEN <<TRUE, c.fields[CHOOSE i \in 1..Len(c.fields) : c.fields[i].name = f].ret>>
+         ELSE <<FALSE, AnyT>>
 
 Lookup(env, x) == IF x \in DOMAIN env THEN env[x] ELSE AnyT
 NumJoin(a, b, op) == IF a = AnyT \/ b = AnyT THEN AnyT
@@ -211,7 +231,8 @@ TypeOf(t, env) ==
       [] t.k = "attr"  ->
            LET vt == TypeOf(t.a[1], env) IN
            IF vt.k = "rec" /\ \E i \in 1..Len(vt.p) : vt.p[i] = t.s
-           THEN vt.a[CHOOSE i \in 1..Len(vt.p) : vt.p[i] = t.s] ELSE AnyT
+           THEN vt.a[CHOOSE i \in 1..Len(vt.p) : vt.p[i] = t.s]
+           ELSE LookupField(vt, t.s)[2]
       [] OTHER -> AnyT
 
 (* item type of the stream an operator produces; "refuse" for a non-boolean Where filter *)
@@ -240,6 +261,9 @@ PlannedPairs(cs) == {<<CbKinds(cs.pl)[j], Sites(cs)[i]>> : i \in 1..Len(Sites(cs
 RECURSIVE Suffixed(_, _)
 Suffixed(nm, n) == IF n = 0 THEN nm ELSE Suffixed(nm, n - 1) \o "_rw"
 BaseName(pl) == CASE pl = "func" -> "cbfn" [] pl = "param" -> "prop" [] OTHER -> "m"
-EmittedName(cs) == IF cs.rw THEN Suffixed(BaseName(cs.pl), Len(CbKinds(cs.pl))) ELSE BaseName(cs.pl)
+(* context 8 chains two typed calls, e.sub(101).m(102): the first site calls 'sub' *)
+ChainCtx == 8
+BaseNameAt(cs, i) == IF cs.ctx = ChainCtx /\ i = 1 THEN "sub" ELSE BaseName(cs.pl)
+EmittedNameAt(cs, i) == IF cs.rw THEN Suffixed(BaseNameAt(cs, i), Len(CbKinds(cs.pl))) ELSE BaseNameAt(cs, i)
 
 =============================================================================
